@@ -48,7 +48,7 @@ func init() {
 		modes: func(tier string, seed int64) []modeSpec {
 			n := 1600
 			if tier == "thorough" {
-				n = 40000
+				n = 120000
 			}
 			return []modeSpec{{name: "snapshots", n: n, perChild: n / 16, timeout: 20 * time.Minute}}
 		},
@@ -392,7 +392,7 @@ func init() {
 		modes: func(tier string, seed int64) []modeSpec {
 			n := 640
 			if tier == "thorough" {
-				n = 16000
+				n = 64000
 			}
 			return []modeSpec{{name: "memnet", n: n, perChild: n / 16, timeout: 30 * time.Minute}}
 		},
